@@ -6,7 +6,7 @@ from sigtools import signatures as S
 
 from vf import space, alg, runner
 from vf.binder import Alphabet
-from vf.space import show, shape_of, valid_shape, role_consistent
+from vf.space import show, shape_of, valid_shape, role_consistent, VA, VK
 
 PROP = 'C01'
 NAMES8 = ('a', 'b', 'c', 'args', 'kwargs', 'p', 'k', 'zz')
@@ -43,7 +43,7 @@ def slices(tier):
 
 
 def shards(tier):
-    out = []
+    out = [('derived', 0, 0)]
     for name, (_, _, arity, first, other, _) in slices(tier).items():
         n = len(first)
         # one shard per first operand for big slices, chunks for small ones
@@ -121,8 +121,58 @@ def eval_case(alpha, shapes, form, st):
     return None
 
 
+def derived_shard(st):
+    """Inputs that share their provenance: the signature of a function next to signatures derived from the same function
+    (a partial object binding one parameter by keyword, a copy with a default added through replace())."""
+    import functools
+    import inspect
+    alpha = alphabet(NAMES6, 5)
+    for shape in [x for x in space.universe(2, 'abc') if space.name_sorted(x)]:
+        for nm, kind, opt in shape:
+            if opt or kind in (VA, VK, space.PO):
+                continue
+            f = space.make_func(shape, cache=False)
+            base = S.signature(f)
+            derived = []
+            for label, make in (('partial(f, %s=0)' % nm, lambda: S.signature(functools.partial(f, **{nm: 0}))),
+                                ('replace(default of %s)' % nm, lambda: base.replace(parameters=[
+                                    p.replace(default=0) if p.name == nm else p for p in base.parameters.values()]))):
+                try:
+                    derived.append((label, make()))
+                except ValueError:
+                    pass        # a default in front of a required positional parameter: no such signature
+            for label, d in derived:
+                if not valid_shape(shape_of(d)):
+                    continue
+                for sigs, order in (((d, base), 'derived first'), ((base, d), 'derived second')):
+                    st.inc('states')
+                    status, res = alg.outcome(S.merge, *sigs)
+                    st.inc('transitions')
+                    if status != 'ok' or not valid_shape(shape_of(res)):
+                        continue
+                    accr = alpha.acc(shape_of(res))
+                    st.inc('evaluations', alpha.size)
+                    for i, x in enumerate(sigs):
+                        xs = shape_of(x)
+                        bad = accr & ~alpha.acc(xs) & ~alpha.excluded(xs) & ~alpha.excluded(shape_of(res)) & alpha.pure
+                        if bad:
+                            n, K = alpha.first(bad)
+                            st.violation('merge-unsound', {'op': 'merge-derived', 'shape': space.to_json(shape), 'name': nm},
+                                         {'inputs': [str(y) for y in sigs], 'derivation': label, 'order': order, 'result': alg.sig_str(res),
+                                          'call': {'positionals': n, 'keywords': K}, 'rejected_by_input': i,
+                                          'clause': 'pure call (all positional or all keyword)'}, {'arity': 2, 'form': 'derived'})
+                            break
+                    st.seen('result', ('derived', shape, nm, label, order, shape_of(res)))
+    st.inc('validated', alpha.validated)
+    alpha.validated = 0
+
+
 def shard(tier, sh):
     name, i0, i1 = sh
+    if name == 'derived':
+        st = runner.Stats()
+        derived_shard(st)
+        return st
     names, nmax, arity, first, other, forms = slices(tier)[name]
     alpha = alphabet(names, nmax)
     st = runner.Stats()
@@ -172,6 +222,10 @@ def run(tier, seed):
 
 def replay(art):
     case = art['case']
+    if case.get('op') == 'merge-derived':
+        st = runner.Stats()
+        derived_shard(st)
+        return [v['detail'] for v in st.viol if v['case'] == case] or None
     names, nmax = case['alphabet']
     alpha = Alphabet(tuple(names), nmax)
     shapes = tuple(space.from_json(x) for x in case['inputs'])
